@@ -20,7 +20,7 @@ func init() {
 		Explanation: "Decides the sandbox-surface and guard-placement clauses behind 'a Lua plugin cannot hang, crash or escape the controller' on the whole program including the gopher-lua library source: (R16.1) the set of library openers is read from RunLuaScript, the Go functions each opener registers are enumerated from the opener body and the package-level registration maps (exhaustive), and for every registered function the static call closure through non-standard-library code must not reach a file / process / network / environment entry point of the standard library — unless the function's global is set to nil before the script runs on every path; " +
 			"(R16.2) the VM is created inside the call with SkipOpenLibs=true, no *LState is stored in a package variable or field, openers run protected; (R16.3) SetContext with a context from context.WithTimeout(_, d), d a constant <= 5s, precedes DoString on every path and the script is entered only through the protected DoString; " +
 			"(R16.4) the JSON encoder descends into a table only after marking it visited, never un-marks, and rejects visited tables; (R16.5) both script callers turn a non-table result into an error.",
-		NotDecided: "that the VM honours the context inside Go-implemented library functions; memory / nesting bombs (outside the property); value round-trips through the conversion.",
+		NotDecided:  "that the VM honours the context inside Go-implemented library functions; memory / nesting bombs (outside the property); value round-trips through the conversion.",
 		Assumptions: []string{"dynamic calls of LGFunction values are not followed: the VM can only call what is registered, which is the set being enumerated", "the closure follows static callees only; interface calls inside library functions are not followed"},
 	})
 }
@@ -435,7 +435,9 @@ func runC16(c *Ctx) {
 		n := 0
 		for _, call := range CallsIn(fn, "encoding/json.Marshal") {
 			fs := FactsAtInstr(call.(ssa.Instruction))
-			if !HasFact(fs, FTrue(func(t *Term) bool { return t.Op == "extract" && t.Idx == 1 && t.Args[0].Op == "typeassert" && strings.Contains(t.Args[0].Name, "LTable") })) &&
+			if !HasFact(fs, FTrue(func(t *Term) bool {
+				return t.Op == "extract" && t.Idx == 1 && t.Args[0].Op == "typeassert" && strings.Contains(t.Args[0].Name, "LTable")
+			})) &&
 				!SliceHas(call.Common().Args[0], func(t *Term) bool { return t.Op == "make" || t.Op == "index" }) {
 				continue
 			}
